@@ -10,19 +10,25 @@ open Nuts.Facts.C18
 /-- the condition text with which `http/client.checkRedirect` refuses a scheme downgrade in strict mode -/
 def condStrictHttps : String := "StrictMode && req.URL.Scheme != \"https\""
 /-- Go's default limit, which a custom CheckRedirect has to re-implement -/
-def condMaxRedirects : String := "len(via) >= 10"
+def condMaxRedirects : String := "len(via) >= maxRedirects"
 /-- the condition text with which did:web's redirect check refuses to leave the origin of the first request -/
 def condSameOrigin : String := "req.URL.Scheme != via[0].URL.Scheme || req.URL.Host != via[0].URL.Host"
 
 /-- every `http.Client` built by http/client carries the package's CheckRedirect -/
 def allClientsCheckRedirects : Bool :=
-  clientConstructors ≠ [] && clientConstructors.all fun c => c.endsWith ":checkRedirect"
+  clientCheckRedirects ≠ [] && clientCheckRedirects.all fun c => c == "checkRedirect"
 
-/-- redirect policy of the client did:web resolution uses, read off the facts -/
+/-- `WithRedirectCheck` runs the package policy first, then the caller's check -/
+def wrapperKeepsPolicy : Bool :=
+  withRedirectCheckBody = ["if-err:checkRedirect(req, via)", "return:check(req, via)"]
+
+/-- redirect policy of the client did:web resolution uses, read off the facts (no CheckRedirect at all = Go's default:
+    follow up to 10 redirects) -/
 def factPolicy : Policy :=
-  { strictHttpsRedirect := allClientsCheckRedirects && checkRedirectConds.contains condStrictHttps
-    sameOriginRedirect := didwebRedirectConds.contains condSameOrigin
-    maxRedirects := 10 }
+  { strictHttpsRedirect := allClientsCheckRedirects && checkRedirectConds.contains condStrictHttps &&
+      (didwebRedirectCheck == "none" || wrapperKeepsPolicy)
+    sameOriginRedirect := didwebRedirectCheck != "none" && didwebRedirectConds.contains condSameOrigin
+    maxRedirects := maxRedirectsConst.getD 10 }
 
 /-- did:web chain order: the node's own store is asked before the network -/
 def factLocalFirst : Bool := webResolverChain = ["r.ownedDIDResolver", "didweb.NewResolver()"]
